@@ -127,8 +127,15 @@ def _mk_filter(degs, tier):
         h.assume(AND(t >= 0, t <= 1, OR(t < tol, t > 1 - tol)))
         before = view(j)
         objs = [id(p) for s in j.segments for p in s.ctrlpoints]
-        r, e = h.call(j.split, [0, len(degs) - 1], [t, t])
-        h.ensure("near-end-parameters-accepted", e is None)
+
+        def no_split(seg, nodes):
+            from ..harness import CalleePre
+
+            raise CalleePre("a parameter within 1e-6 of 0/1 reached PlanarCurve.split (it must be ignored)")
+
+        with h.stubs({(PlanarCurve, "split"): no_split}):
+            r, e = h.call(j.split, [0, len(degs) - 1], [t, t])
+        h.ensure("near-end-parameters-accepted", e is None, detail=f"{type(e).__name__ if e else None}: {e}")
         h.ensure("near-end-parameters-create-no-piece", AND(len(j.segments) == len(degs), view_eq(view(j), before), [id(p) for s in j.segments for p in s.ctrlpoints] == objs))
         u = h.real("u", mode)
         h.assume(OR(u < 0, u > 1))
